@@ -89,7 +89,7 @@ func opGen() *rapid.Generator[bz.ROp] {
 				return bz.ROp{K: "setcache", A: 1000 + rapid.IntRange(0, 3).Draw(t, "which")}
 			}
 			kind := rapid.IntRange(0, 3).Draw(t, "kind")
-			cp := rapid.SampledFrom([]int{1, 1, 2, 2, 3, 4, 6, 8, 16}).Draw(t, "cap")
+			cp := rapid.SampledFrom([]int{1, 1, 1, 2, 2, 2, 3, 4, 6, 8, 16}).Draw(t, "cap")
 			st := rapid.IntRange(0, 1).Draw(t, "stats")
 			return bz.ROp{K: "setcache", A: kind*100 + cp*2 + st}
 		}
@@ -122,7 +122,7 @@ func draw(t *rapid.T) Case {
 		}
 	}
 	c.RD = rapid.SampledFrom([]int{1, 1, 1, 2, 3, 4, 8, 0}).Draw(t, "rd")
-	first := bz.ROp{K: "setcache", A: rapid.IntRange(1, 3).Draw(t, "kind0")*100 + rapid.SampledFrom([]int{1, 1, 2, 2, 3, 4, 8, 16}).Draw(t, "cap0")*2 + rapid.IntRange(0, 1).Draw(t, "stats0")}
+	first := bz.ROp{K: "setcache", A: rapid.IntRange(1, 3).Draw(t, "kind0")*100 + rapid.SampledFrom([]int{1, 1, 1, 2, 2, 2, 3, 4, 8, 16}).Draw(t, "cap0")*2 + rapid.IntRange(0, 1).Draw(t, "stats0")}
 	c.Ops = append([]bz.ROp{first}, rapid.SliceOfN(opGen(), 1, 50).Draw(t, "ops")...)
 	if rapid.IntRange(0, 3).Draw(t, "delay") == 0 {
 		c.Delays = rapid.SliceOfN(rapid.SampledFrom([]int{0, 0, 30, 200}), 1, 4).Draw(t, "delays")
